@@ -33,7 +33,7 @@ CHECK = dict(
                  "the defined-flags table (written from the SDM) lists only flags the processor defines or leaves unchanged",
                  "binutils objdump text gives the operands used to steer memory addresses and to pick the flags-table row",
                  "32-bit mode: a mode-invariant encoding behaves in 64-bit mode with zero-extended registers as in 32-bit mode on the low 32 bits"],
-    timeout={"quick": 900, "thorough": 3400},
+    timeout={"quick": 1200, "thorough": 7000},
     exhaustive={"quick": False, "thorough": False},
     overlay="plain",
     technique="runtime monitoring: differential execution of single instructions against the host processor",
